@@ -1,7 +1,9 @@
 package main
 
 import (
+	"bytes"
 	"fmt"
+	"gopkg.in/yaml.v3"
 	"math/rand"
 	"reflect"
 	"sort"
@@ -52,8 +54,26 @@ func c02Opts() genOpts {
 	return o
 }
 
+// the document under test, built along one of three routes (chosen by the document itself, so a
+// case is reproducible): builder API with fresh leaves, FromMap, FromReader (YAML text) — the
+// decoders share one nil leaf among all nulls
+func c02Build(doc map[string]any) dom.ContainerBuilder {
+	switch len(fmt.Sprint(doc)) % 3 {
+	case 1:
+		return dom.Builder().FromMap(doc)
+	case 2:
+		var b bytes.Buffer
+		if err := yaml.NewEncoder(&b).Encode(doc); err == nil {
+			if d, err := dom.Builder().FromReader(&b, dom.DefaultYamlDecoder); err == nil && reflect.DeepEqual(normGeneric(nodeToAny(d)), normGeneric(any(doc))) {
+				return d
+			}
+		}
+	}
+	return anyToContainer(doc)
+}
+
 func c02Flatten(doc map[string]any) Case {
-	d := anyToContainer(doc)
+	d := c02Build(doc)
 	fp, _ := flatPlain(d)
 	var fail []string
 	if len(fp) != countScalars(doc) {
@@ -65,7 +85,7 @@ func c02Flatten(doc map[string]any) Case {
 
 // every flattened path: Lookup, pointer, ParsePath
 func c02Address(r *rand.Rand, doc map[string]any) []Case {
-	d := anyToContainer(doc)
+	d := c02Build(doc)
 	fp, fl := flatPlain(d)
 	var out []Case
 	keys := sortedKeys(fp)
@@ -135,7 +155,7 @@ func gPsegs(pp props.Path) string {
 
 // lookups of paths that are NOT flattened paths (prefixes, neighbours, junk)
 func c02LookupOther(r *rand.Rand, doc map[string]any) Case {
-	d := anyToContainer(doc)
+	d := c02Build(doc)
 	fp, _ := flatPlain(d)
 	keys := sortedKeys(fp)
 	p := "nope"
@@ -176,7 +196,7 @@ func c02ParseRaw(raw string) Case {
 }
 
 func c02Search(r *rand.Rand, doc map[string]any) Case {
-	d := anyToContainer(doc)
+	d := c02Build(doc)
 	fp, _ := flatPlain(d)
 	var fn dom.SearchValueFunc
 	var coqPred string
@@ -289,7 +309,7 @@ func c02Doc(r *rand.Rand, o genOpts) map[string]any {
 func init() {
 	register(&Prop{
 		ID:   "C02",
-		Rule: "documents with path-safe keys (incl. all-digit keys), lists in lists to depth 4, lists of containers, mixed. kinds: flatten (whole Flatten map as a set + count of scalar positions), lookup (a flattened path: must be pointer-identical to the flattened leaf), lookup-other (prefixes / neighbours / junk paths), pointer (xform.PointerFromPropPathString(p).Eval), parsepath (segments; also adversarial raw strings), search (equals-value / is-string / always; as a set), rebuild (AddValueAt of every flattened pair in a random permutation into an empty document; documents in which every list item contains a scalar). Non-trivial: document has a list inside a list. Distinct by Gallina term.",
+		Rule: "documents with path-safe keys (incl. all-digit keys), lists in lists to depth 4, lists of containers, mixed; each document built along one of three routes (builder API, FromMap, FromReader of its YAML text). kinds: flatten (whole Flatten map as a set + count of scalar positions), lookup (a flattened path: must be pointer-identical to the flattened leaf), lookup-other (prefixes / neighbours / junk paths), pointer (xform.PointerFromPropPathString(p).Eval), parsepath (segments; also adversarial raw strings), search (equals-value / is-string / always; as a set), rebuild (AddValueAt of every flattened pair in a random permutation into an empty document; documents in which every list item contains a scalar). Non-trivial: document has a list inside a list. Distinct by Gallina term.",
 		Corpus: func() []Case {
 			r := rand.New(rand.NewSource(5))
 			d1 := map[string]any{"a": []any{[]any{1, 2}, []any{3}}}
